@@ -33,8 +33,6 @@ func kindOf(m msgOp) (string, string) {
 	switch m.kind {
 	case "send":
 		return "bank/send", ""
-	case "msend":
-		return "bank/multisend", ""
 	case "exec":
 		return "vm/exec", realmPaths[m.realm]
 	case "run":
@@ -162,7 +160,7 @@ func (o *oracle) judge(op *txOp, signers []int, ok bool, before, after snapshot,
 	// grants given / withdrawn by master-signed messages
 	if ok {
 		for _, msg := range op.msgs {
-			if _, viaSession := op.auth[msg.from]; viaSession && msg.kind != "msend" {
+			if _, viaSession := op.auth[msg.from]; viaSession {
 				continue
 			}
 			switch msg.kind {
